@@ -117,10 +117,15 @@ CLAIMS = {
                           "malformations of a bounded corpus; z3, cvc5 cross-check",
                 ref='3/C15'),
     'C16': dict(category='other',
-                text="Per document: processing again gives an equal result, the earlier result and the loaded document "
-                     "stay unchanged, other parsers in between have no influence, no module-level state is written.",
-                note=PARSER_NOTE, technique="contract-based deductive verification: result-equality and frame obligations "
-                     "over symbolic executions of process()", ref='3/C16'),
+                text="(1) Unbounded (DESIGN.md 8.7): process() on a parser object in an ARBITRARY earlier state (file "
+                     "contents of any earlier parse) returns exactly the declarations of the loaded document - "
+                     "well-formed documents of any size and nesting, parse_element by the contract proved under C05. "
+                     "(2) Per corpus document: processing again gives an equal result, the earlier result and the loaded "
+                     "document stay unchanged, other parsers in between have no influence, no module-level state is "
+                     "written (frame).",
+                note=PARSER_NOTE, technique="contract-based deductive verification: refinement of the document "
+                     "specification from an arbitrary initial object state (callee by contract); result-equality and "
+                     "frame obligations over symbolic executions of process() on a bounded corpus", ref='3/C16'),
     'C17': dict(category='proof',
                 text="Proof for all leaf contents: flatten_to_strlist == flat, TextBlock(...).lines == lines_of, append is "
                      "concatenation, every stored line break-free, str form, round trip, trim_list, chunk - against "
